@@ -241,6 +241,7 @@ namespace smt
         assert(root_level());
         // we try to avoid creating a new variable..
         std::sort(ls.begin(), ls.end()); // equal literals become adjacent (and complementary ones consecutive)..
+        ls.erase(std::unique(ls.begin(), ls.end()), ls.end()); // duplicates are removed up front, whatever their value..
         lit p;
         size_t lits_size = 0;
         bool found_true = false; // whether one of the literals is already true..
@@ -323,6 +324,7 @@ namespace smt
         assert(root_level());
         // we try to avoid creating a new variable..
         std::sort(ls.begin(), ls.end()); // equal literals become adjacent (and complementary ones consecutive)..
+        ls.erase(std::unique(ls.begin(), ls.end()), ls.end()); // duplicates are removed up front, whatever their value..
         lit p;
         size_t j = 0;
         bool found_true = false; // whether one of the literals is already true..
